@@ -73,10 +73,16 @@ type world struct {
 	planShrink bool // the plan the index was built from has consecutive files with decreasing commit
 	pollShrink bool // a poll since (re)open consumed a file with a commit below its predecessor's
 	pollLagL1  bool // a poll consumed a level-1 file whose commit is below the commit reached via level 0 in the same poll
+	pollL1Beyond bool // … or holding a page beyond the commit of a NEWER level-0 file consumed by the same poll
 	pollL1Over bool // a poll consumed a level-1 file sharing a page with a NEWER level-0 file consumed by the same poll
 	polls      int
 	nontrivial bool
 	lastPollErr string
+	// family "lock held across polls": polls since Lock(SHARED), the poll (1-based, under the lock) that
+	// consumed a shrinking commit, and whether the lock was released after at least one MORE poll
+	lockPolls       int
+	lockShrinkPoll  int
+	lockShrinkMulti bool
 	pollsSinceOp int // polls since the last primary op / reopen
 }
 
@@ -221,7 +227,11 @@ func (w *world) compareModel(where, implPrefix, model string) {
 	if hx.Differs(impl, model) {
 		w.fail("disagreement", "C18/model-"+strings.SplitN(where, "#", 2)[0], fmt.Sprintf("%s: impl %.700q model %.700q", where, impl, model))
 	}
-	if strings.HasPrefix(model, "ok ") || strings.HasPrefix(model, "err noncontiguous ") {
+	if hx.Differs(impl, model) {
+		// resynchronise: the model continues from the implementation's state so that the rest of the
+		// history still runs (the property oracle must get its chance after a disagreement)
+		w.ms = w.implState()
+	} else if strings.HasPrefix(model, "ok ") || strings.HasPrefix(model, "err noncontiguous ") {
 		w.ms = strings.TrimPrefix(strings.TrimPrefix(model, "ok "), "err noncontiguous ")
 	} else { // model off: follow the implementation
 		w.ms = w.implState()
@@ -267,7 +277,8 @@ func (w *world) open() error {
 	w.f = f
 	w.locked = false
 	w.planShrink = planShrinks(w, plan)
-	w.pollShrink, w.pollLagL1, w.pollL1Over = false, false, false
+	w.pollShrink, w.pollLagL1, w.pollL1Over, w.pollL1Beyond = false, false, false, false
+	w.lockPolls, w.lockShrinkPoll, w.lockShrinkMulti = 0, 0, false
 	r, _ := w.replicaArg()
 	model := w.ask(fmt.Sprintf("vopen PLAN=%s TT=0 R=%s", planArg(plan), r))
 	w.compareModel("open", "ok ", model)
@@ -282,17 +293,29 @@ func (w *world) open() error {
 // classify maps a failed comparison to a signature: the two known findings are predicates on the
 // history (a shrinking commit in the plan / consumed by a poll) plus the shape of the failure.
 func (w *world) classify(onlySizeTooBig bool, generic string) string {
+	if onlySizeTooBig {
+		// "every page equal, FileSize too large" is F6's shape only: stale high pages survive from an
+		// Open on a plan that shrank. Every replace-index path (F7/F7b) rebuilds the index from scratch, so
+		// once a poll replaced the index a too-large size is NOT explained by any known finding.
+		if w.planShrink && !w.pollShrink && !w.pollLagL1 {
+			return "C18/open-size-after-shrink"
+		}
+		if w.pollL1Beyond {
+			return "C18/poll-l1-overrides-newer-l0"
+		}
+		if w.lockShrinkMulti {
+			return "C18/size-after-shrink-lock-held-across-polls"
+		}
+		return generic
+	}
 	if w.pollShrink {
 		return "C18/poll-replaces-index-on-shrink"
 	}
 	if w.pollLagL1 {
 		return "C18/poll-replaces-index-on-lagging-l1"
 	}
-	if w.pollL1Over && !onlySizeTooBig {
+	if w.pollL1Over {
 		return "C18/poll-l1-overrides-newer-l0"
-	}
-	if w.planShrink && onlySizeTooBig {
-		return "C18/open-size-after-shrink"
 	}
 	return generic
 }
@@ -419,6 +442,7 @@ func (w *world) poll(i int) {
 	}
 	l0 = cont
 	prev := int(commitBefore)
+	shrunkBefore := w.pollShrink
 	for _, f := range l0 {
 		if m, e := w.metaOf(f.L, f.Min, f.Max); e == nil {
 			if m.commit < prev {
@@ -462,10 +486,24 @@ func (w *world) poll(i int) {
 					w.pollL1Over = true
 				}
 			}
+			// same merge order, other symptom: the older level-1 file holds pages beyond the commit of the
+			// newer level-0 file (the database shrank in between) — they are merged back into the index
+			for _, p := range mg.pages {
+				if p > mf.commit {
+					w.pollL1Beyond = true
+				}
+			}
 		}
 	}
 	if w.pollL1Over {
 		w.count("vfs/poll-l1-overrides-newer-l0")
+	}
+	if w.locked {
+		w.lockPolls++
+		if w.pollShrink && !shrunkBefore && w.lockShrinkPoll == 0 {
+			w.lockShrinkPoll = w.lockPolls
+			w.count("vfs/shrink-consumed-under-lock")
+		}
 	}
 	if os.Getenv("C18_DEBUG") != "" {
 		fmt.Fprintf(os.Stderr, "poll#%d R=%s\n  before %s\n  after  %s%s\n", i, r, stateArgs(w.ms), prefix, w.implState())
@@ -498,7 +536,7 @@ func (w *world) timeTravel(i, a int) {
 		if rerr == nil {
 			b, _ := os.ReadFile(out)
 			os.Remove(out)
-			w.planShrink, w.pollShrink, w.pollLagL1, w.pollL1Over = planShrinks(w, plan), false, false, false
+			w.planShrink, w.pollShrink, w.pollLagL1, w.pollL1Over, w.pollL1Beyond = planShrinks(w, plan), false, false, false, false
 			w.compareView(fmt.Sprintf("step%d/time-travel", i), mask(b), true)
 		}
 		r, _ := w.replicaArg()
@@ -514,7 +552,7 @@ func (w *world) timeTravel(i, a int) {
 		w.fail("violation", "C18/reset-time-error", err.Error())
 		return
 	}
-	w.planShrink, w.pollShrink, w.pollLagL1, w.pollL1Over = planShrinks(w, plan2), false, false, false
+	w.planShrink, w.pollShrink, w.pollLagL1, w.pollL1Over, w.pollL1Beyond = planShrinks(w, plan2), false, false, false, false
 	r, _ := w.replicaArg()
 	model := w.ask(fmt.Sprintf("vopen PLAN=%s TT=0 R=%s", planArg(plan2), r))
 	w.compareModel("reset", "ok ", model)
@@ -548,7 +586,7 @@ func runCase(c Case, res *hx.Result, drv *hx.Driver, mu *sync.Mutex) (fails []fa
 		return nil, "", false, fmt.Errorf("open: %w", err)
 	}
 	for i, st := range c.Steps {
-		if len(w.fails) > 0 {
+		if hasViolation(w.fails) {
 			break
 		}
 		switch {
@@ -565,6 +603,7 @@ func runCase(c Case, res *hx.Result, drv *hx.Driver, mu *sync.Mutex) (fails []fa
 			if !w.locked {
 				if err := w.f.Lock(sqlite3vfs.LockShared); err == nil {
 					w.locked = true
+					w.lockPolls, w.lockShrinkPoll = 0, 0
 					w.lockImg = w.archive[int(w.f.Pos().TXID)]
 					w.compareModel("lock", "ok ", w.ask("vlock "+stateArgs(w.ms)))
 					w.count("vfs/lock")
@@ -574,6 +613,11 @@ func runCase(c Case, res *hx.Result, drv *hx.Driver, mu *sync.Mutex) (fails []fa
 			if w.locked {
 				if err := w.f.Unlock(sqlite3vfs.LockNone); err == nil {
 					w.locked = false
+					if w.lockShrinkPoll > 0 && w.lockPolls > w.lockShrinkPoll {
+						// the reader held SHARED across the poll that consumed the shrink AND at least one more poll
+						w.lockShrinkMulti = true
+						w.count("vfs/unlock-after-shrink-lock-held-across-polls")
+					}
 					w.compareModel("unlock", "ok ", w.ask("vunlock "+stateArgs(w.ms)))
 					w.count("vfs/unlock")
 					w.check(fmt.Sprintf("step%d/unlock", i))
@@ -591,7 +635,7 @@ func runCase(c Case, res *hx.Result, drv *hx.Driver, mu *sync.Mutex) (fails []fa
 	}
 	// liveness: the case ends with two polls on a static replica; unless a known defect already broke
 	// the index, the VFS must have reached the newest TXID
-	if len(w.fails) == 0 && !w.locked && w.f.TargetTime() == nil && !w.pollShrink && !w.pollLagL1 && !w.pollL1Over && w.lastPollErr == "" && w.pollsSinceOp >= 2 {
+	if !hasViolation(w.fails) && !w.locked && w.f.TargetTime() == nil && !w.pollShrink && !w.pollLagL1 && !w.pollL1Over && !w.pollL1Beyond && w.lastPollErr == "" && w.pollsSinceOp >= 2 {
 		fs, _ := prim.Listing(w.client)
 		// only when no level-0 file beyond Pos() was pruned before the VFS saw it (the VFS relies on L0
 		// retention outlasting its poll interval; a VFS that fell behind pruned L0 files can stay stuck
@@ -614,6 +658,15 @@ func runCase(c Case, res *hx.Result, drv *hx.Driver, mu *sync.Mutex) (fails []fa
 	return w.fails, fmt.Sprintf("%v|%v", c, w.canon), w.polls > 0 || w.nontrivial, nil
 }
 
+func hasViolation(fs []failure) bool {
+	for _, f := range fs {
+		if f.kind != "disagreement" {
+			return true
+		}
+	}
+	return false
+}
+
 func genCase(rnd *hx.Rand, tier string) Case {
 	cfg := prim.Cfg{PageSize: []int{4096, 4096, 1024, 8192}[rnd.Intn(4)], AutoVacuum: rnd.Chance(50)}
 	c := Case{Cfg: cfg, Init: []prim.Op{{K: "write", A: 5 + rnd.Intn(40), B: 200 + rnd.Intn(3000)}, {K: "sync"}}}
@@ -624,6 +677,44 @@ func genCase(rnd *hx.Rand, tier string) Case {
 		for _, o := range prim.GenHistory(rnd, 1+rnd.Intn(5), cfg) {
 			c.Init = append(c.Init, o)
 		}
+	}
+	if rnd.Chance(25) {
+		// family "lock held across polls": a reader holds SHARED while a poll consumes a shrinking commit
+		// (DELETE+VACUUM or incremental_vacuum) and at least one more poll ticks before it unlocks; then every
+		// page and FileSize are compared with Restore(TXID=Pos())
+		c.Init = []prim.Op{{K: "write", A: 30 + rnd.Intn(40), B: 800 + rnd.Intn(2500)}, {K: "sync"}}
+		if rnd.Chance(50) {
+			c.Init = append(c.Init, prim.Op{K: "snapshot"})
+		}
+		add := func(ops ...prim.Op) {
+			for _, o := range ops {
+				o := o
+				c.Steps = append(c.Steps, Step{P: &o})
+			}
+		}
+		if rnd.Chance(50) {
+			add(prim.Op{K: "write", A: 1 + rnd.Intn(10), B: 200 + rnd.Intn(2500)}, prim.Op{K: "sync"})
+			c.Steps = append(c.Steps, Step{V: "poll"})
+		}
+		c.Steps = append(c.Steps, Step{V: "lock"})
+		if rnd.Chance(40) {
+			add(prim.Op{K: "update", A: 1 + rnd.Intn(4), B: 200 + rnd.Intn(2500)}, prim.Op{K: "sync"})
+			c.Steps = append(c.Steps, Step{V: "poll"})
+		}
+		if cfg.AutoVacuum && rnd.Chance(60) {
+			add(prim.Op{K: "shrink", A: 2 + rnd.Intn(5), B: 5 + rnd.Intn(60)}, prim.Op{K: "sync"})
+		} else {
+			add(prim.Op{K: "shrink", A: 2 + rnd.Intn(5), B: 0}, prim.Op{K: "vacuum"}, prim.Op{K: "sync"})
+		}
+		c.Steps = append(c.Steps, Step{V: "poll"})
+		for j := 0; j < 1+rnd.Intn(3); j++ {
+			if rnd.Chance(50) {
+				add(prim.Op{K: "write", A: 1 + rnd.Intn(4), B: 100 + rnd.Intn(1500)}, prim.Op{K: "sync"})
+			}
+			c.Steps = append(c.Steps, Step{V: "poll"})
+		}
+		c.Steps = append(c.Steps, Step{V: "unlock"}, Step{V: "poll"}, Step{V: "poll"})
+		return c
 	}
 	n := 6 + rnd.Intn(14)
 	if tier == "thorough" {
